@@ -316,6 +316,39 @@ async def connection_level(chk, rng, meter, quick):
             await nw.finish()
 
 
+def cost_probe(chk):
+    """packet families of growing size in a subprocess with a hard timeout: every packet must be handled quickly"""
+    import json
+    import subprocess
+    probe = os.path.join(os.path.dirname(os.path.abspath(__file__)), "..", "costprobe.py")
+    lines = []
+    timed_out = False
+    try:
+        p = subprocess.run([sys.executable, probe], capture_output=True, text=True, timeout=60)
+        out = p.stdout
+        if p.returncode != 0:
+            chk.notes.append("cost probe exited with %d: %s" % (p.returncode, p.stderr[-300:]))
+    except subprocess.TimeoutExpired as e:
+        out = (e.stdout or b"").decode() if isinstance(e.stdout, bytes) else (e.stdout or "")
+        timed_out = True
+    for ln in out.split("\n"):
+        if ln.startswith("{"):
+            lines.append(json.loads(ln))
+    done = [x for x in lines if "seconds" in x]
+    for x in done:
+        chk.case(("cost", x["family"], x["n"]))
+        chk.count("cost-probe")
+        if x["seconds"] > 0.75 + 1e-6 * len(x["payload"]):
+            chk.fail("one packet blocked the event loop (cost grows out of proportion to its size)",
+                     dict(family=x["family"], n=x["n"], payload=x["payload"][:200]), dict(seconds=x["seconds"]))
+    if timed_out:
+        last = done[-1] if done else None
+        chk.fail("one packet blocked the event loop until the probe's hard timeout",
+                 dict(after=last and dict(family=last["family"], n=last["n"]), note="the packet after this one never completed"), None)
+    if not done and not timed_out:
+        chk.fail("cost probe produced no measurements", dict(stderr=chk.notes[-1:] if chk.notes else None), None)
+
+
 def main():
     chk = Check("C07", sys.argv[1:])
     chk.rule = ("every valid packet of every supported kind (handshake response x3 capability sets, SSL request, auth-switch reply, QUERY "
@@ -323,7 +356,8 @@ def main():
                 "CHANGE_USER, PING) mutated by truncation at every offset (every 2nd in quick), byte replacement with 0/1/250..255, length "
                 "blow-ups (2^16, 2^24, 2^64-1) at every (sampled in quick) position, bit flips and random payloads. Every mutated packet is "
                 "a distinct non-trivial case.")
-    chk.assumptions = ["CPU work is measured in executed source lines of mysql_mimic (sys.monitoring), budget 120 lines/byte + 20000",
+    chk.assumptions = ["CPU work is measured in executed source lines of mysql_mimic (sys.monitoring), budget 120 lines/byte + 20000; work outside "
+                       "Python source lines (the regex engine) by wall clock: packet families of growing size run in a subprocess with a hard timeout",
                        "the driver decodes utf-8 / latin-1 / ascii exactly; mutated collation bytes outside that set are skipped at the parser level"]
     chk.tie(["MimicProps.C07"])
     chk.run_replays(["D7"])
@@ -335,6 +369,7 @@ def main():
         asyncio.run(connection_level(chk, rng, meter, quick))
     finally:
         meter.close()
+    cost_probe(chk)
     model = [canon_model_hs(x) for x in drive(lines)]
     chk.compare("real parsers vs Mimic.Packets / Mimic.Params on mutated payloads", lines, model, impl)
     chk.finish()
